@@ -11,7 +11,8 @@
    the subject of the ..._refuted theorems at the end. *)
 From Lal Require Import Common.LBytes Common.Res Common.NAssoc
   Rtmp.RtmpChunk Rtmp.RtmpComposer Rtmp.RtmpChunkSpec Rtmp.RtmpChunkSpecProofs
-  Rtmp.RtmpLegalProofs Rtmp.RtmpRoundtripProofs Rtmp.RtmpPinnedProofs.
+  Rtmp.RtmpLegalProofs Rtmp.RtmpRoundtripProofs Rtmp.RtmpPinnedProofs
+  Rtmp.RtmpMsgPackerBuf Rtmp.RtmpMsgPackerBufProofs Rtmp.RtmpMsgPacker Rtmp.RtmpMsgPackerProofs.
 Open Scope N_scope.
 
 (* (1) lal's reader on lal's writer, one message.
@@ -118,6 +119,57 @@ Theorem c08_packer_header : forall csid ty msid p c,
 Proof. exact packer_header_eq. Qed.
 Print Assumptions c08_packer_header.
 
+(* (9) MessagePacker (signalling): whatever ChunkAndWrite is called with - any
+   body length, also > LocalChunkSize (Message2Chunks path), csid 2..63, type,
+   message stream id - the wire carries a legal chunking of exactly
+   (csid, type, msid, timestamp 0, body); the reference reader and lal's reader
+   (peer chunk size 4096, that chunk stream idle, anything else arbitrary) decode
+   that message. *)
+Theorem c08_packer_message : forall body csid ty msid,
+  2 <= csid <= 63 -> ty < 256 -> msid < 4294967296 -> lenN body < 16777216 -> bytes_ok body ->
+  ty <> 1 -> ty <> 22 ->
+  let h := packer_hdr body csid ty msid in
+  exists bs,
+    packer_emit body csid ty msid = Ok bs /\
+    legal_chunking 4096 [msg_of h body] bs /\
+    ref_decode 4096 bs = Some [msg_of h body] /\
+    forall st, cs_chunk st = 4096 -> idle_at st csid ->
+      exists raw,
+        run_composer st bs = (mk_cstate 4096 (nset csid (done_stream h) (cs_streams st)), [mk_rmsg h body raw], err_eof).
+Proof. exact packer_message. Qed.
+Print Assumptions c08_packer_message.
+
+(* every writer of the packer (connect, _result, createStream, play, publish,
+   onStatus, user control, ack, window / bandwidth, raw ChunkAndWrite) on a packer
+   whose buffer has been through any earlier messages: never panics, leaves the
+   buffer ready, and emits (9) for its own csid / type / msid / AMF0 body *)
+Theorem c08_packer_writer : forall b c,
+  idle b -> pcmd_args_ok c -> lenN (pcmd_body c) < 16777216 -> bytes_ok (pcmd_body c) ->
+  pcmd_type c <> 1 -> pcmd_type c <> 22 ->
+  let h := packer_hdr (pcmd_body c) (pcmd_csid c) (pcmd_type c) (pcmd_msid c) in
+  exists out b',
+    packer_step b c = Ok (out, b') /\ idle b' /\
+    legal_chunking 4096 [msg_of h (pcmd_body c)] out /\
+    ref_decode 4096 out = Some [msg_of h (pcmd_body c)] /\
+    forall st, cs_chunk st = 4096 -> idle_at st (pcmd_csid c) ->
+      exists raw,
+        run_composer st out
+        = (mk_cstate 4096 (nset (pcmd_csid c) (done_stream h) (cs_streams st)), [mk_rmsg h (pcmd_body c) raw], err_eof).
+Proof. exact packer_writer. Qed.
+Print Assumptions c08_packer_writer.
+
+(* writeChunkSize: the message comes back and the reader's chunk size becomes the value *)
+Theorem c08_packer_set_chunk_size : forall v st,
+  1 <= v < 2147483648 -> cs_chunk st = 4096 -> idle_at st 2 ->
+  let h := mk_hdr 2 4 1 0 0 in
+  exists bs raw,
+    packer_emit (be_put 4 v) 2 1 0 = Ok bs /\
+    legal_chunking 4096 [msg_of h (be_put 4 v)] bs /\
+    ref_decode 4096 bs = Some [msg_of h (be_put 4 v)] /\
+    run_composer st bs = (mk_cstate v (nset 2 (done_stream h) (cs_streams st)), [mk_rmsg h (be_put 4 v) raw], err_eof).
+Proof. exact packer_set_chunk_size. Qed.
+Print Assumptions c08_packer_set_chunk_size.
+
 (* ------------------------------------------------------------------------
    What was false of the pinned snapshot (models of the pinned code; every
    witness was replayed on the Go code before the repair). *)
@@ -213,3 +265,18 @@ Example c08_nonvacuous_legal :
     length (deliver_all msgs) = 7%nat /\
     ref_decode 2 cs = Some (deliver_all msgs).
 Proof. eexists. eexists. eexists. split; [vm_compute; reflexivity|]. repeat split; vm_compute; reflexivity. Qed.
+
+(* play with a 4100-byte stream name on message stream 1, after SetChunkSize on
+   the same packer: two chunks, and the message stream id survives the chunked path *)
+Example c08_nonvacuous_packer :
+  match packer_run new_packer [PChunkSize 4096; PPlay (repeat 107 4100) 1] with
+  | [Ok _; Ok out] =>
+      length out = 4133%nat /\ firstn 12 out = [5; 0; 0; 0; 0; 16; 24; 20; 1; 0; 0; 0] /\
+      nth 4108 out 0 = 197 /\
+      match ref_decode 4096 out with
+      | Some [m] => g_csid m = 5 /\ g_type m = 20 /\ g_msid m = 1 /\ g_ts m = 0 /\ lenN (g_payload m) = 4120
+      | _ => False
+      end
+  | _ => False
+  end.
+Proof. vm_compute. repeat split; reflexivity. Qed.
